@@ -2,7 +2,7 @@
 import sys, os
 sys.path.insert(0, os.path.dirname(os.path.dirname(os.path.abspath(__file__))))
 from aovc.check import run_check
-from contracts import slopecov
+from contracts import slopecov, turbstats
 
 
 def build(chk):
@@ -11,6 +11,10 @@ def build(chk):
     slopecov.geometry_obligations(chk, 2, 2)
     slopecov.assembly_obligations(chk, 3, 2, mp=False)
     slopecov.composition_lemma(chk)
+    # the kernels are proved against an abstract structure function D = structure_function_vk; that this D is the von Karman one is C08's contract, re-checked here
+    with chk.borrow("C08"):
+        turbstats.obligations(chk)
+        chk.bounded_native("structure_function_vk agrees numerically with 2(C(0)-C(r)) of the von Karman covariance on a grid of separations", "consistency", "r/L0 from 1e-4 to 30, 3 (r0, L0) pairs, tolerance 5e-3", "aotools/turbulence/slopecovariance.py:structure_function_vk")
     chk.confirm_known("C01-yx-unequal-widths", "entries", {"case": "ngs-lgs"})
     chk.bounded_native("end to end against the statement's covariance (independent oracle): entries, symmetry, PSD to single precision, additivity over layers, wavelength scaling", "entries",
                        "7 small systems (2-3 sensors, asymmetric masks, off-axis, NGS/LGS, 3 layers)", "aotools/turbulence/slopecovariance.py:CovarianceMatrix")
